@@ -2,7 +2,7 @@
    and fully_written, service_loop, service_queue. *)
 From GM Require Import Base.Prelude Base.Outcome Codec.Packets Codec.Settings Engine.Model
   EngineProofs.AssocLemmas EngineProofs.PacketIds EngineProofs.WFLemmas EngineProofs.WFDefs EngineProofs.WFCore
-  EngineProofs.WFComplete EngineProofs.WFClose EngineProofs.WFService EngineProofs.WFService2.
+  EngineProofs.WFComplete EngineProofs.WFClose EngineProofs.WFService EngineProofs.WFService2 EngineProofs.WFTrack.
 From Coq Require Import Sorting.Sorted Sorting.Permutation.
 From RecordUpdate Require Import RecordSet.
 Import RecordSetNotations.
@@ -271,21 +271,22 @@ Section Loop.
         end
     end.
 
-  Definition lp (st0 : pstate) (r : sres enc dec ores ires) : Prop :=
+  (* [T] stands for "the tracking invariant held in the state the loop started from" *)
+  Definition lp (st0 : pstate) (T : Prop) (r : sres enc dec ores ires) : Prop :=
     (forall site, sr_out r <> Panic site) /\ WFS (sr_s r) /\ (sr_out r = Ok tt -> WFP cfg (sr_s r)) /\
-    (s_st (sr_s r) = st0 \/ s_st (sr_s r) = PendingDisconnect) /\ cinv HC (sr_s r).
+    (s_st (sr_s r) = st0 \/ s_st (sr_s r) = PendingDisconnect) /\ cinv HC (sr_s r) /\ (T -> TR (sr_s r)).
 
-  Lemma lp_err (s : state) acc dn k : WFS s -> cinv HC s -> lp (s_st s) (mkSres s acc dn (Err k)).
+  Lemma lp_err (s : state) acc dn k : WFS s -> cinv HC s -> lp (s_st s) (TR s) (mkSres s acc dn (Err k)).
   Proof. intros H HI. unfold lp. cbn. splits; auto; intros; discriminate. Qed.
 
-  Lemma lp_weaken st0 st1 r : lp st1 r -> st1 = st0 \/ st1 = PendingDisconnect -> lp st0 r.
-  Proof. intros (A & B & C & D & E) H. unfold lp. splits; auto. destruct D as [D|D]; [|tauto]. rewrite D. exact H. Qed.
+  Lemma lp_weaken st0 st1 (T T' : Prop) r : lp st1 T' r -> st1 = st0 \/ st1 = PendingDisconnect -> (T -> T') -> lp st0 T r.
+  Proof. intros (A & B & C & D & E & G) H HT. unfold lp. splits; auto. destruct D as [D|D]; [|tauto]. rewrite D. exact H. Qed.
 
   Lemma encode_step_spec k now cap fill (s5 : state) acc dn :
     WF cfg s5 -> cinv HC s5 -> live s5 -> s_cur s5 <> None -> 4 <= cap ->
     (forall s7 acc', WF cfg s7 -> cinv HC s7 -> s_cur s7 = None -> qlen s7 = qlen s5 ->
-                     (s_st s7 = s_st s5 \/ s_st s7 = PendingDisconnect) -> lp (s_st s7) (k s7 acc')) ->
-    lp (s_st s5) (encode_step k now cap fill s5 acc dn).
+                     (s_st s7 = s_st s5 \/ s_st s7 = PendingDisconnect) -> lp (s_st s7) (TR s7) (k s7 acc')) ->
+    lp (s_st s5) (TR s5) (encode_step k now cap fill s5 acc dn).
   Proof.
     intros [HW HP] HI Hl Hc Hcap Hk. unfold encode_step. destruct (s_cur s5) as [id|] eqn:Ec; [|congruence].
     destruct (op_exists s5 id) eqn:Eex; cbn [negb]; [|apply lp_err; assumption].
@@ -308,11 +309,25 @@ Section Loop.
     destruct (enc_done e').
     2:{ unfold lp. cbn. splits; auto. intros; discriminate. }
     change (s_st s5) with (s_st s6).
-    destruct (fully_written_spec [] s6 now id o HW6 Ec Ho Hbound) as (s7 & E7 & HW7 & K7 & C7 & O7 & S7 & T7 & P7).
+    destruct (fully_written_spec [] s6 now id o HW6 Ec Ho Hbound) as (s7 & E7 & HW7 & K7 & C7 & O7 & S7 & T7 & M7 & P7).
     rewrite E7.
     assert (Hst7 : s_st s7 = s_st s6 \/ s_st s7 = PendingDisconnect).
     { rewrite S7. destruct (is_disconnect (op_packet o)); tauto. }
-    eapply lp_weaken; [|exact Hst7]. apply Hk.
+    assert (HT7 : TR s5 -> TR s7).
+    { intros T5. assert (T6 : TR s6) by (apply (TR_queues s5); [reflexivity|unfold inQ; cbn; tauto|exact T5]).
+      apply (TR_gen s6 s7 T6). intros i o1 Hi Hp. right. unfold getop in Hi. rewrite O7 in Hi. apply lookup_update_inv in Hi.
+      destruct Hi as (o0 & Ho0 & Hcase).
+      assert (E0 : op_pid o1 = op_pid o0 /\ op_packet o1 = op_packet o0 /\ op_pubrel o1 = op_pubrel o0).
+      { destruct Hcase as [[_ ->]|[_ ->]]; cbn; tauto. }
+      destruct E0 as (E01 & E02 & E03). exists o0. splits; auto; [congruence|].
+      pose proof K7 as Kt. unfold but_fw in Kt. tuple_eqs Kt.
+      unfold inQ. replace (s_uq s7) with (s_uq s6) by congruence. replace (s_rq s7) with (s_rq s6) by congruence.
+      replace (s_hq s7) with (s_hq s6) by congruence. rewrite C7. change (s_cur s6) with (s_cur s5). rewrite Ec.
+      intros [Q|[Q|[Q|[Q|Q]]]]; auto 6.
+      inversion Q; subst i. unfold getop in Ho. change (s_ops s6) with (s_ops s5) in Ho0. assert (o0 = o) by congruence. subst o0.
+      destruct (needs_pid (op_packet o)) eqn:En; [exfalso; apply (Hbound eq_refl); congruence|].
+      destruct (P7 eq_refl) as (P71 & _). rewrite P71. right; right; right; right. apply in_or_app. right. left. reflexivity. }
+    eapply lp_weaken; [|exact Hst7|exact HT7]. apply Hk.
     - split; [exact HW7|]. eapply (WFP_written s6 s7 id o now); eauto.
     - eapply cinv_comp; [|exact HI6]. unfold comp_of. pose proof K7 as Kt. unfold but_fw in Kt. tuple_eqs Kt. congruence.
     - exact C7.
@@ -338,7 +353,7 @@ Section Loop.
 
   Lemma service_loop_spec : forall f (s : state) m now cap fill acc dn,
     WF cfg s -> cinv HC s -> (s_st s = PendingConnack -> m = false) -> (mu s < f)%nat -> 4 <= cap ->
-    lp (s_st s) (service_loop f s m now cap fill acc dn).
+    lp (s_st s) (TR s) (service_loop f s m now cap fill acc dn).
   Proof.
     induction f as [|f IH]; intros s m now cap fill acc dn [HW HP] HI Hm Hmu Hcap; [lia|].
     rewrite service_loop_S.
@@ -361,9 +376,9 @@ Section Loop.
         - left. tauto. }
       pose proof (seat_gen _ _ _ _ _ _ _ _ _ _ _ _ _ _ _ HC s m acc dn HW Ec H9 Hv HI) as Hpost.
       destruct (seat_current s m acc dn) as [r|s5 dn'|s5]; cbn [seat_post] in Hpost.
-      + destruct Hpost as (P0 & P1 & P2 & P3 & P4 & P5). unfold lp. splits; auto; [intros E; rewrite (P3 E); exact HP|].
+      + destruct Hpost as (P0 & PT & P1 & P2 & P3 & P4 & P5). unfold lp. splits; auto; [intros E; rewrite (P3 E); exact HP|].
         destruct P5 as [P5|P5]; [left; exact P5|destruct Hl; congruence].
-      + destruct Hpost as (HI5 & HW5 & Hc5 & id & Hcase).
+      + destruct Hpost as (HI5 & HT5 & HW5 & Hc5 & id & Hcase).
         assert (H5 : WFP cfg s5 /\ s_st s5 = s_st s /\ qlen s = S (qlen s5)).
         { destruct Hcase as [(G & K & D & Eo & Ee)|(s4 & Hsd & F & Hc4 & H95 & Hg)].
           - split; [eapply WFP_skip; eauto|]. split; [|eapply dq_rel_qlen; eauto].
@@ -375,13 +390,13 @@ Section Loop.
             + destruct (fc_st _ _ _ F) as [E|[E _]]; [congruence|]. destruct Hl; congruence.
             + rewrite (dq_rel_qlen _ _ _ _ D). unfold qlen. congruence. }
         destruct H5 as (HP5 & Hst5 & Hq5).
-        rewrite <- Hst5.
+        rewrite <- Hst5. eapply lp_weaken; [|left; reflexivity|exact HT5].
         apply IH; [split; assumption|exact HI5|rewrite Hst5; exact Hm| |exact Hcap]. unfold mu in *. rewrite Hc5, Ec in *. lia.
-      + destruct Hpost as (HI5 & HW5 & id & Hsd & Hc5 & He5).
+      + destruct Hpost as (HI5 & HT5 & HW5 & id & Hsd & Hc5 & He5).
         assert (HP5 : WFP cfg s5) by exact (WFP_seated m s s5 id HW HP Hl Ec Hm Hsd Hc5 He5).
         assert (Hst5 : s_st s5 = s_st s) by (destruct Hsd as [K _ _ _ _]; unfold seat_keep in K; tuple_eqs K; congruence).
         assert (Hq5 : qlen s = S (qlen s5)) by (destruct Hsd as [_ D _ _ _]; eapply dq_rel_qlen; eauto).
-        rewrite <- Hst5.
+        rewrite <- Hst5. eapply lp_weaken; [|left; reflexivity|exact HT5].
         apply encode_step_spec; auto; [split; assumption|unfold live in *; rewrite Hst5; exact Hl|congruence|].
         intros s7 acc' HW7 HI7 Hc7 Hq Hst.
         apply IH; [exact HW7|exact HI7|intros E; apply Hm; rewrite <- Hst5; destruct Hst; congruence| |exact Hcap].
@@ -390,6 +405,6 @@ Section Loop.
 End Loop.
 
 Arguments WFP_view {enc dec ores ires} cfg s s' _ _ _.
-Arguments lp {enc enc_reset enc_call dec dec_init dec_feed ores ores_reset ores_resolve ires ires_reset ires_resolve v_out v_in} cfg HC st0 r.
+Arguments lp {enc enc_reset enc_call dec dec_init dec_feed ores ores_reset ores_resolve ires ires_reset ires_resolve v_out v_in} cfg HC st0 T r.
 Arguments live {enc dec ores ires} s.
 Arguments wfp_view {enc dec ores ires} s.
